@@ -1,6 +1,6 @@
 (* C16 — Evaluation computes the diagram's function and refuses cyclic diagrams.
    Property theorems only: each statement is spelled out and closed by [exact] of a lemma proved in Proofs/. *)
-From OHG Require Import Spec.GraphSpec Proofs.C16Lemmas Proofs.C16Thm Proofs.C16Iso Proofs.Assemble Proofs.EvalPlain Proofs.EvalFunctor Proofs.EvalMono.
+From OHG Require Import Spec.GraphSpec Proofs.C16Lemmas Proofs.C16Thm Proofs.C16Iso Proofs.Assemble Proofs.EvalPlain Proofs.EvalFunctor Proofs.EvalMono Proofs.OracleEval.
 
 Theorem C16_refuses_iff_cyclic : forall B : Backend,
        BackendOK B ->
@@ -242,6 +242,35 @@ Theorem C16_eval_circuit_tensor : forall B : Backend,
           sem B d apply f x u -> sem B d apply g y v -> sem B d apply t (x ++ y) (u ++ v)).
 Proof. exact (@E2_circuit). Qed.
 
+Theorem C16_oracle_agrees : forall B : Backend,
+       BackendOK B ->
+       forall (f : ohg nat nat) (inp : list BinNums.Z),
+       wf_ohg f ->
+       single_writer f ->
+       arity_ok Dispatch.interp f ->
+       eval B BinNums.Z0 Dispatch.apply_sig f inp = Ok (SpecCheck.ref_eval (abs f) inp).
+Proof. exact (@OracleEval.ref_eval_agrees). Qed.
+
+Theorem C16_oracle_refuses_iff_cyclic : forall (f : ohg nat nat) (inp : list BinNums.Z),
+       wf_ohg f -> SpecCheck.ref_eval (abs f) inp = None <-> ~ acyclic_ops f.
+Proof. exact (@OracleEval.ref_eval_refuses_iff_cyclic). Qed.
+
+Theorem C16_oracle_value_clause : forall B : Backend,
+       BackendOK B ->
+       forall (f : ohg nat nat) (inp out : list BinNums.Z),
+       wf_ohg f ->
+       SpecCheck.ref_eval (abs f) inp = Some out ->
+       chk_single_writer (abs f) && chk_arity_ok (abs f) inp = true ->
+       eval B BinNums.Z0 Dispatch.apply_sig f inp = Ok (Some out).
+Proof. exact (@OracleEval.oracle_value_clause). Qed.
+
+Theorem C16_oracle_refusal_clause : forall B : Backend,
+       BackendOK B ->
+       forall (f : ohg nat nat) (inp : list BinNums.Z),
+       wf_ohg f ->
+       SpecCheck.ref_eval (abs f) inp = None -> eval B BinNums.Z0 Dispatch.apply_sig f inp = Ok None.
+Proof. exact (@OracleEval.oracle_refusal_clause). Qed.
+
 Print Assumptions C16_refuses_iff_cyclic.
 Print Assumptions C16_total.
 Print Assumptions C16_computes.
@@ -260,3 +289,7 @@ Print Assumptions C16_eval_gluing.
 Print Assumptions C16_eval_iso.
 Print Assumptions C16_eval_circuit_compose.
 Print Assumptions C16_eval_circuit_tensor.
+Print Assumptions C16_oracle_agrees.
+Print Assumptions C16_oracle_refuses_iff_cyclic.
+Print Assumptions C16_oracle_value_clause.
+Print Assumptions C16_oracle_refusal_clause.
